@@ -27,10 +27,10 @@ and `conversion/mod.rs` is a value `Outcome.panic site`, every loop takes fuel a
   environment satisfying `EnvOK`.
 * `C01_plain_histories` — histories made of key events (any code / modifiers), `select(n)`, start / cancel
   selecting, `commit`, `clear`, `ack`, layout switches and `learn_phrase` need NO exclusion: they never panic or hang.
-* `f41_jump_first_breaks_invariant`, `C01_target_refuted` — the one operation `Covered` excludes is a genuine
-  defect (finding F41, found by this proof attempt): with the simple engine, `jump_to_first_selection_point`
-  on the single-word list makes the selector swallow the following non-syllable symbol; choosing a candidate
-  then records an invalid selection (outside C03's `CompValid`, the class on which `ChewingEngine` panics).
+* `f41_history_repaired` — finding F41 (found by this proof attempt in the one corner `Covered` excludes,
+  confirmed as an abort on the real C API, repaired by a `fix:` commit): with the simple engine,
+  `jump_to_first_selection_point` made the single-word list swallow the following non-syllable symbol; choosing a
+  candidate recorded an invalid selection and the next `ChewingEngine` conversion aborted.
 * `initial_inv` — a fresh editor satisfies `EditorInv`.
 
 ## Coverage (`Covered`) — level: partial
@@ -46,8 +46,8 @@ and every other entry point in every state: `select(n)`, `start_selecting`, `can
 `set_conversion_engine`, `learn_phrase`, `unlearn_phrase`, and `jump_*` outside a phrase list.
 **Not yet covered by a theorem** (`C01_target` is the statement without `Covered`):
 `jump_to_{first,last,next,prev}_selection_point` while a *phrase* candidate list is open
-(`chewing_cand_list_{first,last,next,prev}`).  This is not only a gap of the proof: `C01_target_refuted` shows
-that `jump_to_first_selection_point` really leaves the invariant (finding F41).  Covered by the correspondence (model = code per step, including which
+(`chewing_cand_list_{first,last,next,prev}`); they need an invariant relating the selector's range to the
+position it was opened at.  The first proof attempt there uncovered finding F41 (repaired, see below).  Covered by the correspondence (model = code per step, including which
 steps panic) and the crash campaigns only.  Likewise outside the theorems: the C glue `capi/src/io.rs`.
 The symbol tables enter through the hypothesis `SymWF` (well-formed `symbols.dat` as loaded: leaf
 categories have a name, table categories point to an existing table), part of `EditorInv`.
@@ -339,89 +339,34 @@ theorem f02_is_known :
   rw [hd0] at h0
   exact absurd h0 (by decide)
 
-/-! ## The uncovered corner is a real defect: `C01_target` is false (finding F41, found by the proof attempt)
+/-! ## Finding F41 (found by the proof attempt, confirmed on the real C API, repaired)
 
-`jump_to_first_selection_point` re-runs `PhraseSelector::init` from the cursor position the list was opened
-at.  With the SIMPLE engine a typed syllable opens a single-word list whose `orig` is the cursor *after* the
-syllable; re-initialising there (backwards: `end = orig + 1`) makes the range swallow the symbol that follows
-the syllable — also a non-syllable.  The prefix look-up still finds the syllable's words, so choosing a
-candidate records a selection of ONE character over TWO symbols, one of them a character: the composition
-leaves `CompValid` (C03's precondition, the F31 class on which `ChewingEngine` panics — C03
-`invalid_selection_panics`).  Reachable through the C API: `chewing_cand_list_first` + `chewing_cand_choose_by_index`. -/
+`jump_to_first_selection_point` re-runs `PhraseSelector::init` from the position `orig` the list was opened
+at.  With the SIMPLE engine a typed syllable opens a single-word list; before the repair its `orig` was the
+cursor *after* the syllable, so re-initialising there (backwards: `end = orig + 1`) made the range swallow
+the symbol that follows the syllable — also a non-syllable.  The prefix look-up still found the syllable's
+words, so choosing a candidate recorded a selection of ONE character over TWO symbols, one of them a
+character: the composition left `CompValid` (C03's precondition; the F31 class), and the next conversion
+with `ChewingEngine` aborted at `shortest_path(..).unwrap()` (`chewing_cand_list_first`,
+`chewing_cand_choose_by_index(0)`, `chewing.conversion_engine = 1`, read the buffer).  The fix: commit makes
+`init_single_word` record the position of the word, as `init` does; the model follows.  The former witness
+history now keeps the selector on the syllable and the choice is a valid selection: -/
 
 def keyA : KeyEvent := { index := 20, code := 20, unicode := 97 }
 def keyHome : KeyEvent := { index := 58, code := KC.home, unicode := 65533 }
 def keyDel : KeyEvent := { index := 51, code := KC.del, unicode := 65533 }
 
-/-- the selector after `jump_to_first_selection_point` in the witness history -/
-def f41Sel : PhraseSel :=
-  { begin_ := 0, end_ := 2, forward := false, orig := 1, strategy := .standard,
-    com := { symbols := [.syl 3, .chr 97], gaps := [.begin, .normal], selections := [] } }
-
-/-- **F41**: buffer `[a]`, cursor 0, simple engine, type a syllable (single-word list opens), then
-    `jump_to_first_selection_point`: the state before satisfies the invariant and the call is not in the known
-    class, yet afterwards the selector covers the non-syllable `a` (invariant broken), and choosing the first
-    candidate leaves a composition outside C03's `CompValid` -/
-theorem f41_jump_first_breaks_invariant :
-    ∃ e e' e'', (stdEditor [3]).run toyEnv [.key keyJ, .key keyJ, .key keyA, .key keyHome, .key keyDel,
+/-- buffer `[a]`, cursor 0, simple engine, type a syllable (single-word list opens),
+    `jump_to_first_selection_point`, choose the first candidate: the range stays `[0, 1)` and the recorded
+    selection is `0..1` with one character (before the repair: `[0, 2)` and a 1-character selection over 2 symbols) -/
+theorem f41_history_repaired :
+    ∃ e e' e'' s p, (stdEditor [3]).run toyEnv [.key keyJ, .key keyJ, .key keyA, .key keyHome, .key keyDel,
         .setOptions { conversionEngine := .simple }, .key keyJ, .key keyJ] = .ok e ∧
-      EditorInv toyEnv (fun _ => True) e ∧ ¬ Known toyEnv e (.jump 0) ∧
-      e.apply toyEnv (.jump 0) = .ok e' ∧ ¬ EditorInv toyEnv (fun _ => True) e' ∧
-      e'.apply toyEnv (.select 0) = .ok e'' ∧ ¬ Conv.CompValid e''.shared.com.inner := by
-  -- the first five keys: a plain history
-  obtain ⟨e5, h5, hi5⟩ := C01_plain_histories toyEnv_ok (stdEditor [3]) (stdEditor_inv [3])
-    [.key keyJ, .key keyJ, .key keyA, .key keyHome, .key keyDel]
-    (by intro op hop; simp only [List.mem_cons, List.not_mem_nil, or_false] at hop; rcases hop with rfl | rfl | rfl | rfl | rfl <;> trivial)
-  obtain ⟨c5, hc5, hsym5, heng5⟩ : ∃ c5, (stdEditor [3]).run toyEnv [.key keyJ, .key keyJ, .key keyA, .key keyHome, .key keyDel] = .ok c5 ∧
-      c5.shared.com.inner.symbols = [.chr 97] ∧ c5.shared.engine = .chewing := ⟨_, rfl, rfl, rfl⟩
-  have := ok_unique hc5 h5; subst this
-  -- the option change is valid and not in the known class (no syllable in the buffer)
-  obtain ⟨e6, h6, hi6⟩ := C01_partial toyEnv_ok c5 (.setOptions { conversionEngine := .simple }) hi5
-    (by show (0 : Nat) < 10; omega)
-    (by
-      intro hk
-      apply hk
-      refine ⟨fun k hkm => ?_, fun hh => by cases hh⟩
-      rw [hsym5] at hkm
-      simp at hkm)
-    trivial
-  -- two more keys: plain again
-  obtain ⟨e8, h8, hi8⟩ := C01_plain_histories toyEnv_ok e6 hi6 [.key keyJ, .key keyJ]
-    (by intro op hop; simp only [List.mem_cons, List.not_mem_nil, or_false] at hop; rcases hop with rfl | rfl <;> trivial)
-  obtain ⟨c8, c9, c10, hrun, hj, hst, hsel, hsels⟩ : ∃ c8 c9 c10, (stdEditor [3]).run toyEnv [.key keyJ, .key keyJ, .key keyA, .key keyHome, .key keyDel,
-        .setOptions { conversionEngine := .simple }, .key keyJ, .key keyJ] = .ok c8 ∧
-      c8.apply toyEnv (.jump 0) = .ok c9 ∧
-      c9.state = .selecting { pageNo := 0, action := .replace, sel := .phrase f41Sel } ∧
-      c9.apply toyEnv (.select 0) = .ok c10 ∧
-      c10.shared.com.inner.selections = [{ start := 0, stop := 2, isPhrase := true, text := [3] }] :=
-    ⟨_, _, _, rfl, rfl, rfl, rfl, rfl⟩
-  have hrun' : (stdEditor [3]).run toyEnv [.key keyJ, .key keyJ, .key keyA, .key keyHome, .key keyDel,
-      .setOptions { conversionEngine := .simple }, .key keyJ, .key keyJ] = .ok e8 := by
-    show (stdEditor [3]).run toyEnv ([.key keyJ, .key keyJ, .key keyA, .key keyHome, .key keyDel] ++
-      ([.setOptions { conversionEngine := .simple }] ++ [.key keyJ, .key keyJ])) = .ok e8
-    rw [run_append toyEnv _ _ _ _ hc5, run_append toyEnv [.setOptions { conversionEngine := .simple }] _ c5 e6 (by
-      simp only [Editor.run]; rw [h6])]
-    exact h8
-  have := ok_unique hrun hrun'; subst this
-  refine ⟨c8, c9, c10, hrun, hi8, fun hk => hk, hj, ?_, hsel, ?_⟩
-  · intro hinv
-    have hs := hinv.st
-    rw [hst] at hs
-    have hp : PhraseOK toyEnv c9.shared f41Sel := hs.sel
-    obtain ⟨k, hk⟩ := hp.syl 1 (by decide) (by decide)
-    simp [f41Sel] at hk
-  · intro hv
-    have := (hv.sels _ (by rw [hsels]; exact List.mem_cons_self ..)).textLen
-    simp at this
-
-/-- hence the statement without the `Covered` restriction is **false**: `Covered` excludes exactly the
-    operation of F41 -/
-theorem C01_target_refuted : ¬ C01_target := by
-  intro h
-  obtain ⟨e, e', _, _, hi, hk, hj, hni, _⟩ := f41_jump_first_breaks_invariant
-  obtain ⟨e1, h1, hi1⟩ := h _ _ toyEnv _ toyEnv_ok e (.jump 0) hi trivial hk
-  have := ok_unique hj h1; subst this
-  exact hni hi1
+      e.shared.com.inner.symbols = [.syl 3, .chr 97] ∧
+      e.apply toyEnv (.jump 0) = .ok e' ∧ e'.state = .selecting s ∧ s.sel = .phrase p ∧ p.begin_ = 0 ∧ p.end_ = 1 ∧
+      e'.apply toyEnv (.select 0) = .ok e'' ∧
+      e''.shared.com.inner.selections = [{ start := 0, stop := 1, isPhrase := true, text := [3] }] :=
+  ⟨_, _, _, _, _, rfl, rfl, rfl, rfl, rfl, rfl, rfl, rfl, rfl⟩
 
 /-! ## Non-vacuity: the hypotheses are satisfiable and the covered histories are not trivial -/
 
